@@ -262,9 +262,13 @@ def one_replay(ctx, hbin, drv, r, st, tmp):
 
 def run(ctx):
     t_start = time.time()
+    def lap(what):
+        C.log("[c09 %6.1fs] %s" % (time.time() - t_start, what))
     po = C.proof_obligations(ctx, PROP_MODULE, PROP_FILE, hygiene_paths=("DoraModel/Wait", PROP_FILE))
+    lap("theorems built and audited (%d/%d)" % (po["discharged"], po["obligations"]))
     drv, dlog = C.lean_exe("drv_c09")
     hbin, hlog = C.build_harness("h_c09")
+    lap("driver and harness built")
     if hbin is None:
         ctx.finding("corr:build", dict(kind="correspondence", log=hlog[-3000:]),
                     "waitlists.rs / threads.rs no longer build against the sync shim and the stand-ins of "
@@ -304,20 +308,25 @@ def run(ctx):
                 raise RuntimeError("h_c09 hmap-gen failed:\n" + err[-2000:])
             hmap_leg(ctx, hbin, drv, [l for l in gen.splitlines() if l.startswith("hmap")], st, tmp, "gen")
             st["hmap_sequences"] = st["evaluations"]
+            lap("hash map: %d sequences, %d operations" % (st["evaluations"], st["hmap_ops"]))
             # B. protocol traces
             summary, mstats, accepted = proto_leg(ctx, hbin, drv, st, tmp)
+            lap("protocol: %d schedules, %d distinct traces accepted" % (summary.get("schedules", 0), accepted))
         finally:
             shutil.rmtree(tmp, ignore_errors=True)
         # C. compiled workloads, in what is left of the time budget
         try:
             from . import c09_workloads as W
-            budget = (300 if ctx.tier == "quick" else 1800) - (time.time() - t_start) - 15
+            budget = (290 if ctx.tier == "quick" else 1800) - (time.time() - t_start) - 60
             if budget > 40:
                 wl = W.run_workloads(ctx, ctx.tier, time.time() + budget)
                 for f in wl.get("failures", []):
                     st["oracle_failures"] += 0 if f.get("no_input") else 1
-                    ctx.finding(f["key"], dict(kind="oracle", **(f.get("replay") or {})), f["text"], no_input=bool(f.get("no_input")))
+                    ro = dict(kind="oracle")
+                    ro.update(f.get("replay") or {})
+                    ctx.finding(f["key"], ro, f["text"], no_input=bool(f.get("no_input")))
                 st["evaluations"] += wl.get("runs", 0)
+                lap("workloads: %d programs, %d runs" % (wl.get("programs", 0), wl.get("runs", 0)))
             else:
                 ctx.notes.append("compiled workloads skipped: time budget used up by the other legs")
         except ImportError:
@@ -345,9 +354,9 @@ def run(ctx):
                    "the linked list through (blocking, next) and the (head, tail) table entry are abstracted to lists; the "
                    "acceptor checks that the real code touches the model's tail / head"],
                theorems=po["theorems"],
-               not_proved=["no_lost_wakeup (invariant J), no_lost_signal (S), waiters=0 => queue empty modulo notify_all (W), "
-                           "queue/flag consistency (Q), asserts never fail: evaluated by drv_c09 on every model state reached while "
-                           "accepting real traces (DoraModel/Wait/MtxCheck.lean), not proved inductively",
+               not_proved=["no_lost_wakeup for the mutex (invariant J), no_lost_signal (S), queue/flag consistency (Q), "
+                           "asserts never fail: evaluated by drv_c09 on every model state reached while accepting real traces "
+                           "(DoraModel/Wait/MtxCheck.lean), not proved inductively; W (condition) is proved",
                            "hmap: Inv preservation is FALSE for insert (theorem hmap_inv_not_preserved); hmap_refines_partial "
                            "needs live + tombstones < capacity"],
                evaluations=st["evaluations"],
